@@ -205,6 +205,11 @@ package trzsz
 //@       (forall q int {G[b][q]} :: old(cur(b)) <= q && q < cur(b) - 1 ==> G[b][q] != 10)
 //@   # junk mode: a line never ends in the carriage return of a CR-LF wrap
 //@   ensures err == nil && mayHasJunk && len(r0) > 0 ==> r0[len(r0) - 1] != 13
+//@   # a line that has already arrived is delivered without waiting: more input is asked for only while
+//@   # what was consumed so far holds no line feed (nextBuffer itself takes a chunk only when the current
+//@   # one is used up)
+//@   before trzszBuffer.nextBuffer assert [C03] !mayHasJunk ==> \
+//@       (forall q int {G[b][q]} :: old(cur(b)) <= q && q < cur(b) ==> G[b][q] != 10)
 //@   loop 1
 //@     invariant bufFrame(b)
 //@     invariant tbWF(b) && cur(b) >= old(cur(b))
@@ -227,11 +232,15 @@ package trzsz
 //@   ensures err == nil && size >= 0 ==> len(r0) == size && cur(b) == old(cur(b)) + size && \
 //@       (forall j int {r0[j]} :: 0 <= j && j < size ==> r0[j] == G[b][old(cur(b)) + j])
 //@   ensures err == nil && size < 0 ==> len(r0) == 0 && cur(b) == old(cur(b))
+//@   # a block that has already arrived is delivered without taking anything more from the channel: every
+//@   # chunk taken was needed (it starts before the end of the block); for an empty block none is taken
+//@   ensures [C03] recvd[b] == old(recvd)[b] || cstart[b][recvd[b] - 1] < old(cur(b)) + size
 //@   loop 1
 //@     invariant bufFrame(b)
 //@     invariant tbWF(b) && cur(b) >= old(cur(b))
 //@     invariant forall o int {recvd[o]} :: o != b ==> recvd[o] == old(recvd)[o]
 //@     invariant lineIs(b, old(cur(b)), cur(b) - old(cur(b)))
+//@     invariant [C03] recvd[b] == old(recvd)[b] || cstart[b][recvd[b] - 1] < old(cur(b)) + size
 //@     invariant bufLen[b.readBuf] <= size || bufLen[b.readBuf] == 0
 //@     invariant bufLen[b.readBuf] <= bufCap[b.readBuf]
 //@ end
@@ -1358,7 +1367,11 @@ package trzsz
 //@     invariant !sawFinished
 //@ end
 
+//@ # a relay inside tmux re-tags an id by changing exactly its role suffix "00" to "20": the id that
+//@ # replaces the original differs from it in the last-but-one digit only
 //@ func trzszDetector.rewriteTrzszTrigger pure
+//@   before bytes.ReplaceAll assert [C06] len(p2) == len(p1) && len(p1) >= 13 && p2[len(p1) - 2] == 50 && \
+//@       (forall k int {p2[k]} :: 0 <= k && k < len(p1) && k != len(p1) - 2 ==> p2[k] == p1[k])
 //@ end
 
 // ===========================================================================
